@@ -84,6 +84,19 @@ def core_trees(W):
                 out.append(T("If", cd, T(op, x, K[1], y), T(op, x, K[-1], x)))
                 out.append(T("If", cd, T(op, x, y, K[1]), T(op, y, x, K[1])))
                 out.append(T("If", cd, T(op, x, K[1], y), T(op, y, K[1], T("__invert__", x))))
+        # the same variadic operator with DIFFERENT operand counts (2 vs 3) and one difference in the common prefix,
+        # in the extra operand only, or in both: nothing may be merged position-wise
+        for op in ("__add__", "__and__", "__or__", "__xor__", "__mul__"):
+            out.append(T("If", cd, T(op, x, y), T(op, x, K[1], y)))
+            out.append(T("If", cd, T(op, x, K[1], y), T(op, x, y)))
+            out.append(T("If", cd, T(op, x, y), T(op, x, y, K[1])))
+            out.append(T("If", cd, T(op, x, y, K[-1]), T(op, x, y)))
+            out.append(T("If", cd, T(op, y, x), T(op, y, K[-1], T("__invert__", x))))
+            out.append(T("If", cd, T(op, T("__invert__", x), y), T(op, T("__invert__", x), x, y)))
+        if W >= 2:
+            out.append(T("If", cd, T("Concat", x, y), T("Concat", x, T("Extract", y, ints=(W - 1, 1)), T("Extract", x, ints=(0, 0)))))
+            out.append(T("If", cd, T("Concat", x, T("Extract", y, ints=(W - 1, 1)), T("Extract", y, ints=(0, 0))), T("Concat", x, x)))
+            out.append(T("If", cd, T("Concat", y, x), T("Concat", x, T("Extract", x, ints=(W - 1, 1)), T("Extract", y, ints=(0, 0)))))
         out.append(T("If", cd, T("Concat", x, y, x), T("Concat", x, x, y)))
         out.append(T("If", cd, T("Concat", x, y, K[1]), T("Concat", y, y, K[-1])))
         for a in L[:2]:
@@ -172,6 +185,37 @@ def tree_pool(job, rng):
         for _ in range(job["n"]):
             W = rng.choice(job.get("widths", (2, 3, 3, 3)))
             yield rand_tree(rng, W, rng.randint(2, job.get("depth", 4)), want_bool=rng.random() < 0.25)
+
+
+# ----------------------------------------------------------------------------------------------
+# chained canonicalisation: expressions canonicalised in turn with the (var_map, counter) of the previous call
+# ----------------------------------------------------------------------------------------------
+
+def canon_chains(W=3):
+    x, y, z = BVS("x", W), BVS("y", W), BVS("z", W)
+    c, d = BoolS("c"), BoolS("d")
+    k = lambda v: BVV(v, W)     # noqa: E731
+    pool = [x, T("__add__", x, k(5)), T("__add__", k(5), x), T("__add__", x, y), T("__mul__", y, k(3), x),
+            T("__sub__", z, x), T("If", c, x, k(1)), T("If", d, T("__add__", y, k(1)), z),
+            T("__xor__", T("__and__", k(6), y), z), T("ULT", x, k(2)), T("And", c, T("ULT", k(1), y)),
+            T("__eq__", T("__add__", k(1), k(2), z), x), T("Or", d, c), T("Concat", k(1), z, k(2), y)]
+    out = []
+    for a in pool:
+        for b in pool:
+            out.append([a, b])
+    for i, a in enumerate(pool):
+        for j, b in enumerate(pool):
+            if (i + 2 * j) % 5 == 0:
+                out.append([a, b, pool[(i + j + 3) % len(pool)]])
+                out.append([pool[(i * j + 1) % len(pool)], a, b])
+    return out
+
+
+def canon_chains_rand(rng, n):
+    for _ in range(n):
+        W = rng.choice([2, 3, 3])
+        yield [rand_tree(rng, W, rng.randint(1, 3), want_bool=rng.random() < 0.3) if rng.random() < 0.8
+               else rename(rand_tree(rng, W, 2), {"x": "z"}) for _ in range(rng.randint(2, 3))]
 
 
 # ----------------------------------------------------------------------------------------------
